@@ -5,10 +5,9 @@ use std::time::Duration;
 use grenad::verif::{varint_decode32, varint_encode32};
 use serde_json::json;
 use vlib::fam::FileCfg;
-use vlib::fmt::decode_structure;
 use vlib::report::{par_for, Acc, Deadline, Report, Tier, Violation};
 
-use crate::common::{guarded, write_file};
+use crate::common::write_file;
 use crate::query::{run_query, CursorMode, Query};
 
 /// the codec obligations for one length value
@@ -106,7 +105,7 @@ pub fn check_entry(klen: usize, vlen: usize) -> Result<(), String> {
                 let cfg = SorterCfg::scaled(budget, budget, false, 3, false);
                 let got = run_sorter(&cfg, set, Extraction::Stream)?;
                 if &got != set {
-                    return Err(format!("entry with key length {klen}, value length {vlen} {what} inserted into a Sorter (budget {budget}) is not returned as inserted"));
+                    return Err(format!("entry with key length {klen}, value length {vlen} {what} inserted into a Sorter (budget {budget}) is not returned with the inserted bytes"));
                 }
             }
         }
@@ -122,10 +121,8 @@ pub fn check_entry(klen: usize, vlen: usize) -> Result<(), String> {
             return Err(format!("entry with key length {klen}, value length {vlen}: {} does not return the inserted bytes", q.brief()));
         }
     }
-    let layout = guarded(|| decode_structure(&bytes))?.map_err(|e| format!("independent decoder: {e}"))?;
-    if layout.entries != entries {
-        return Err(format!("entry with key length {klen}, value length {vlen}: independent decoder recovers different bytes"));
-    }
+    // (which bytes frame a length — the canonical LEB128 of the persisted format — is C09's
+    // business; here only what comes back counts)
     Ok(())
 }
 
@@ -238,7 +235,7 @@ pub fn run(tier: Tier) -> i32 {
     }
     rep.acc.merge(a3);
     rep.acc.merge(big_thread.join().expect("big-entry thread panicked"));
-    rep.set("rule", json!("E4: all 2^32 length values through the verif re-export of the private codec: encode must produce 1..=5 bytes, and decode must return the value and consume exactly the encoded length on (i) the exact bytes, (ii) the bytes followed by 0xFF.., (iii) followed by 0x00..; E2: entries whose key or value length is 2^7, 2^14, 2^21 -1/0/+1 (plus one 2^28-byte value; thorough: 2^28 -1/0/+1 for keys and values) written through Writer, read back through Reader (both scans; alone in its file; and sharing one block with its neighbours, reached through GE/LE/EQ seeks) and decoded by the independent decoder, and inserted into a Sorter (alone and with neighbours, with and without a spill) and streamed back; distinct_nontrivial = values needing >= 2 bytes plus boundary entries"));
+    rep.set("rule", json!("E4: all 2^32 length values through the verif re-export of the private codec: encode must produce 1..=5 bytes, and decode must return the value and consume exactly the encoded length on (i) the exact bytes, (ii) the bytes followed by 0xFF.., (iii) followed by 0x00..; E2: entries whose key or value length is 2^7, 2^14, 2^21 -1/0/+1 (plus one 2^28-byte value; thorough: 2^28 -1/0/+1 for keys and values) written through Writer, read back through Reader (both scans; alone in its file; and sharing one block with its neighbours, reached through GE/LE/EQ seeks), and inserted into a Sorter (alone and with neighbours, with and without a spill) and streamed back; distinct_nontrivial = values needing >= 2 bytes plus boundary entries"));
     rep.set("bound", json!({"values": "0..=2^32-1 (complete)", "api_boundary_entries": pairs.len() + quick_big.len(), "largest_api_length": lens.iter().max()}));
     rep.assume("API-level entries of 2^32-1 bytes are not run (>= 12 GiB of copies per case); that boundary is covered at codec level only");
     rep.finish()
